@@ -65,6 +65,13 @@ func checkRegs(regs registers.Registers, img []byte) (obs []string, bad string) 
 			}
 			obs = append(obs, fmt.Sprintf("(%s, %s)", gal.Str2(string(r.ID())), gal.Big(v)))
 			// oracle: little-endian value stored at the register's offset
+			if off < 0 || off+n > len(img) {
+				// no value is stored there: the image ends before the end of this register
+				if bad == "" {
+					bad = fmt.Sprintf("register %s (%d bytes at offset %#x) was returned with value %#x although the image has only %#x bytes", r.ID(), n, off, v, len(img))
+				}
+				continue
+			}
 			rev := make([]byte, n)
 			for k := 0; k < n; k++ {
 				rev[n-1-k] = img[off+k]
